@@ -780,6 +780,9 @@ def run_chunk(machine: Machine, base_seed: int, indices, avoid_frac_known,
                     res['verdict'] = ('HARNESS' if conf['verdict']
                                       == 'HARNESS' else 'UNCONFIRMED')
                     res['error'] = conf.get('error')
+            elif 'Inapplicable during generation' in (res.get('error')
+                                                       or ''):
+                pass        # a generator bug, whatever a replay says
             elif conf['verdict'] != 'HARNESS':
                 # the harness error was an artefact of earlier runs
                 res['unconfirmed'] = {'invariant': 'harness', 'subject': '',
